@@ -74,17 +74,20 @@ class EnumStrings(EnumPart):
 
 _LETTERS = 'abzAZ09éß中'
 _PUNCT = '.,;:!?\'"()-+=/|^$%@{}>' + '«»—“”…¡¿。'
+# Unicode symbols (categories Sc, Sm, So, Sk): NOT punctuation for the flanking rules of spec 0.30; a control character and
+# combining / format characters: neither whitespace nor punctuation
+_SYMBOLS = '\u20ac\u00a3\u00a9\u2192\u00d7\u00b0\u00ac\u2603\u00a8' + '\x1f\u0301\u200b\u00ad'
 _SPACES = '   　  \t'
 
 
 class RandomStrings(HypPart):
     name = 'random-wide-alphabet'
     budget = {'quick': 16000, 'thorough': 800000}
-    rule = ('Hypothesis strings of 1..40 symbols over letters/digits, ASCII+Unicode punctuation, Unicode Zs spaces, '
+    rule = ('Hypothesis strings of 1..40 symbols over letters/digits, ASCII+Unicode punctuation, Unicode symbols (not punctuation in 0.30), a control, a combining and two format characters, Unicode Zs spaces, '
             'tab and runs of * and _ (characters with another inline meaning excluded); same non-triviality rule')
 
     _SYMS = (['*', '**', '***', '_', '__', '___', '*', '_', '****', '_____'] * 2
-             + list(_LETTERS) + list(_PUNCT) + list(_SPACES) + ['a', ' ', ' ', 'b'])
+             + list(_LETTERS) + list(_PUNCT) + list(_SYMBOLS) + list(_SPACES) + ['a', ' ', ' ', 'b'])
 
     def strategy(self, tier):
         return tapes(40, 400)
@@ -100,6 +103,43 @@ class RandomStrings(HypPart):
         if re.search(r'[\[\]\\`<&~#\n\r]', t):
             return Out(skip='character with another inline meaning')
         return check_text(t)
+
+
+class LongRange(HypPart):
+    """An opener and its closer separated by up to 300 delimiter runs that stay unmatched: the algorithm's opener
+    search, its bottoms and the stack surgery over long distances (a bounded look-back, a quadratic short cut)."""
+    name = 'long-range'
+    budget = {'quick': 1500, 'thorough': 60000}
+    rule = ('outer run of 1-3 delimiters + word + n in 1..300 filler units drawn from unmatched-run shapes (_a , a_ , *a , (* , __a , '
+            '**a , a** , _*a ...) + word + closing run; optionally a second such span after it; compared with the model; '
+            'non-trivial = n >= 40; distinct = distinct string')
+    required_labels = {'n>=64': 0.2}
+
+    _FILL = ['_a ', 'a_ ', '*a ', '(*a ', '__a ', '**a ', 'a** ', '_*a ', 'a ', '. ', '*(a ', 'a* ', 'a__ ', '___a ']
+
+    def strategy(self, tier):
+        return tapes(12, 60)
+
+    def expand(self, drawn):
+        t = Tape(drawn)
+        parts = []
+        n_total = 0
+        for _ in range(1 + t.below(2)):
+            ch = t.choice('*_')
+            k = 1 + t.below(3)
+            n = t.weighted([(2, 1 + t.below(40)), (3, 40 + t.below(80)), (2, 120 + t.below(181))])
+            fills = [t.choice(self._FILL) for _ in range(1 + t.below(3))]
+            body = ''.join(fills[i % len(fills)] for i in range(n))
+            parts.append(ch * k + 'foo ' + body + 'bar' + ch * t.choice([k, k, 1, 2, 3]))
+            n_total = max(n_total, n)
+        yield {'text': ' '.join(parts), 'n': n_total}
+
+    def check(self, case):
+        out = check_text(case['text'])
+        n = case.get('n', 0)
+        out.nt = n >= 40
+        out.labels = tuple(out.labels) + (('n>=64',) if n >= 64 else ('n<64',))
+        return out
 
 
 class C06(Prop):
@@ -141,6 +181,7 @@ class C06(Prop):
             EnumStrings('enum-underscore', 'a_', {'quick': 14, 'thorough': 17}),
             EnumStrings('enum-star-underscore', 'a*_', {'quick': 10, 'thorough': 13}),
             RandomStrings(),
+            LongRange(),
         ]
 
 
